@@ -21,6 +21,8 @@ import (
 	"github.com/zishang520/engine.io/v2/config"
 	"github.com/zishang520/engine.io/v2/engine"
 	"github.com/zishang520/engine.io/v2/types"
+	ewt "github.com/zishang520/engine.io/v2/webtransport"
+	"github.com/zishang520/webtransport-go"
 )
 
 // world is one engine server plus the clients talking to it, all inside one
@@ -44,7 +46,17 @@ type world struct {
 	onWrite  func(i int)
 }
 
-func (w *world) now() int64 { return int64(time.Since(w.start)) }
+func (w *world) now() int64 {
+	if rtMode {
+		return 0 // real-time scenarios do not compare instants
+	}
+	return int64(time.Since(w.start))
+}
+
+// idle waits until nothing moves any more: the bubble's quiescence barrier, or
+// (real-time scenarios over a QUIC loopback, see sesq_test.go) a sampled one.
+var idle = synctest.Wait
+var rtMode = false
 
 func (w *world) ev(format string, a ...any) {
 	w.mu.Lock()
@@ -55,6 +67,10 @@ func (w *world) ev(format string, a ...any) {
 // bubble runs f inside a synctest bubble and tears the world down afterwards
 // so that no goroutine is left blocked.
 func bubble(t *testing.T, f func(t *testing.T)) {
+	if rtMode {
+		f(t)
+		return
+	}
 	synctest.Test(t, f)
 }
 
@@ -234,7 +250,7 @@ func (w *world) request(method, target string, hdr http.Header, body []byte, dec
 		handler.ServeHTTP(&countingRW{h.rec, h, w, idx}, req)
 		h.returned = true
 	}()
-	synctest.Wait()
+	idle()
 	return h
 }
 
@@ -248,7 +264,7 @@ func (h *hreq) finished() bool {
 }
 
 // abort simulates the client going away.
-func (h *hreq) abort() { h.cancel(); synctest.Wait() }
+func (h *hreq) abort() { h.cancel(); idle() }
 
 // ---- WebSocket clients ----------------------------------------------------
 
@@ -291,6 +307,10 @@ type wsClient struct {
 	unparseable bool
 	servDone chan struct{}
 	readDone chan struct{}
+	// a WebTransport client over the QUIC loopback (sesq_test.go)
+	wtSess *webtransport.Session
+	wtConn *ewt.Conn
+	seen   int // frames already taken (the real-time quiescence sampler counts every frame once)
 }
 
 // wsDial opens a WebSocket to the engine through an in-memory pipe: the
@@ -348,9 +368,9 @@ func (w *world) wsDial(target string, hdr http.Header, viaMux bool) *wsClient {
 		c.conn = conn
 		go c.readLoop()
 	}()
-	synctest.Wait()
+	idle()
 	<-done
-	synctest.Wait()
+	idle()
 	return c
 }
 
@@ -378,12 +398,21 @@ func (c *wsClient) readLoop() {
 }
 
 func (c *wsClient) send(kind string, data []byte) error {
+	if c.wtConn != nil {
+		mt := ewt.TextMessage
+		if kind == "b" {
+			mt = ewt.BinaryMessage
+		}
+		err := c.wtConn.WriteMessage(mt, data)
+		idle()
+		return err
+	}
 	mt := websocket.TextMessage
 	if kind == "b" {
 		mt = websocket.BinaryMessage
 	}
 	err := c.conn.WriteMessage(mt, data)
-	synctest.Wait()
+	idle()
 	return err
 }
 
@@ -392,33 +421,50 @@ func (c *wsClient) take() []wsFrame {
 	c.mu.Lock()
 	defer c.mu.Unlock()
 	f := c.frames
+	c.seen += len(f)
 	c.frames = nil
 	return f
 }
 
 // drop closes the client's end abruptly (no close frame).
-func (c *wsClient) drop() { c.cc.Close(); synctest.Wait() }
+func (c *wsClient) drop() {
+	if c.wtSess != nil {
+		c.wtSess.CloseWithError(0, "")
+		idle()
+		return
+	}
+	if c.cc != nil {
+		c.cc.Close()
+	}
+	idle()
+}
 
 // ---- teardown ---------------------------------------------------------------
 
 func (w *world) teardown() {
 	defer func() { recover() }()
 	w.srv.Close()
-	synctest.Wait()
+	idle()
 	for _, c := range w.conns {
+		if c.wtSess != nil || c.cc == nil {
+			c.drop()
+			continue
+		}
 		c.cc.Close()
 		c.sc.Close()
 	}
 	for _, r := range w.reqs {
 		r.cancel()
 	}
-	synctest.Wait()
-	time.Sleep(40 * time.Second)
-	synctest.Wait()
+	idle()
+	if !rtMode {
+		time.Sleep(40 * time.Second)
+	}
+	idle()
 	for _, f := range w.cleanups {
 		f()
 	}
-	synctest.Wait()
+	idle()
 }
 
 func (w *world) registry() string {
